@@ -732,11 +732,13 @@ package io
 //@   havoc
 //@   flag bounds=panic
 //@   flag typeassert=panic
-//@   requires valenc != nil && enc != nil && n >= 0
+//@   requires valenc != nil && enc != nil
 //@   modifies ghost.held[*]
 //@ func (*structDecoder).decodeField
 //@   prop C14
 //@   havoc
-//@   use decwf
-//@   requires valdec != nil
+//@   requires valdec != nil && dec != nil && 0 <= dec.head && dec.head <= dec.tail && dec.tail <= len(dec.buf)
+//@   requires dec.reader != nil ==> ghost.rpos[ival(dec.reader)] >= dec.tail &&
+//@       forall(j, off(dec.buf) + dec.head, off(dec.buf) + dec.tail, mem(dec.buf, j) == ghost.rstream[ival(dec.reader)][ghost.rpos[ival(dec.reader)] - dec.tail - off(dec.buf) + j])
+//@   requires dec.reader != nil ==> dec.buf == nil || len(dec.buf) > 0
 //@   modifies ghost.*
